@@ -45,6 +45,9 @@ type ipTransport struct {
 	responder dnssd.Responder
 	handle    dnssd.ServiceHandle
 
+	// serializes the look at the stored pairings and the announcement which follows from it
+	reachabilityMutex sync.Mutex
+
 	stopped chan struct{}
 }
 
@@ -232,6 +235,11 @@ func (t *ipTransport) isPaired() bool {
 }
 
 func (t *ipTransport) updateMDNSReachability() {
+	// Pairings are added and removed by different connections at the same time: the flag which is
+	// announced last must come from the pairings which were looked at last.
+	t.reachabilityMutex.Lock()
+	defer t.reachabilityMutex.Unlock()
+
 	t.config.discoverable = t.isPaired() == false
 	if t.handle != nil {
 		t.handle.UpdateText(t.config.txtRecords(), t.responder)
